@@ -425,7 +425,10 @@ def finish(res, propinfo, t0):
     for dis in violations:
         p = write_replay(pid, dis)
         if p not in reported and len(reported) < 5:
-            lines.append('VIOLATION property=%s replay=%s' % (pid, p))
+            # a disagreement without a concrete input (the harness could not drive the changed code, a time-out without a case,
+            # an in-kernel replay mismatch): the property is no longer shown to hold, but no failing input was found
+            suffix = '' if dis.get('input') is not None else ' no-failing-input-found'
+            lines.append('VIOLATION property=%s replay=%s%s' % (pid, p, suffix))
             reported.add(p)
         exit_code = 1
     chk = coqchk_property(pid) if res.tier == 'thorough' and b['ok'] and pf['ok'] else None
